@@ -31,6 +31,7 @@ type LoopSpec struct {
 	Invariants []*Clause
 	Decreases  *Clause
 	Unroll     int
+	Assumes    []*Clause // assumed at the loop head, not checked (listed in evidence)
 }
 
 type ParamDecl struct {
@@ -349,7 +350,11 @@ func (cs *ContractSet) parseFile(path string) error {
 					case "ensures":
 						c.Ensures = append(c.Ensures, clause)
 					case "assume":
-						c.Assumes = append(c.Assumes, clause)
+						if curLoop >= 0 {
+							c.Loops[curLoop].Assumes = append(c.Loops[curLoop].Assumes, clause)
+						} else {
+							c.Assumes = append(c.Assumes, clause)
+						}
 					case "modifies":
 						c.HasMod = true
 						c.Modifies = append(c.Modifies, clause)
